@@ -85,6 +85,46 @@ Proof.
     destruct H1 as [H1 | [H1 | []]]; destruct H2 as [H2 | [H2 | []]]; inversion H1; inversion H2; subst; try reflexivity; discriminate.
 Qed.
 
+(* ---- the orders are the comparators of the C source.
+   Translator units cmp_meta (translate/units/_cmp.py) regenerate coq/Gen/Cmp_meta_gen.v from
+   loom.c / proc.c / system.c on every run: the comparison part of by_pid, by_rank, by_phyid,
+   by_tid, cmp_loom_rank, cmp_loom_id is Gallina translated from the C AST, the statements that
+   fetch the compared integers are pinned as text.  The four sorts of the model ARE sorts by those
+   functions: a comparator that is changed in the source breaks these proof obligations. *)
+From OV Require Gen.Cmp_meta_gen Proofs.CmpMetaProofs.
+
+Theorem C15_sort_loom_from_source : forall st l,
+  sort_loom st l =
+  (l,
+   map (fun p => (p, app_of st (l, p),
+                  isort (fun a b => Cmp_meta_gen.by_tid_core a b <=? 0) (threads_of st (l, p))))
+       (isort (fun p q => if rank_enabled st l
+                          then Cmp_meta_gen.by_rank_core (rank_of st (l, p)) (rank_of st (l, q)) <=? 0
+                          else Cmp_meta_gen.by_pid_core p q <=? 0) (procs_of st l)),
+   isort (fun c d => Cmp_meta_gen.by_phyid_core (snd c) (snd d) <=? 0) (cpus_of st l)).
+Proof. exact CmpMetaProofs.sort_loom_from_source. Qed.
+Print Assumptions C15_sort_loom_from_source.
+
+Theorem C15_loom_order_from_source : forall (by_rank : bool) (rmin : name -> Z) l,
+  isort (fun a b => if by_rank then rmin a <=? rmin b else str_le a b) l =
+  isort (fun a b => if by_rank then Cmp_meta_gen.cmp_loom_rank_core (rmin a) (rmin b) <=? 0
+                    else Cmp_meta_gen.cmp_loom_id_core a b <=? 0) l.
+Proof. exact CmpMetaProofs.meta_looms_sorted_by_rank_or_name. Qed.
+Print Assumptions C15_loom_order_from_source.
+
+Theorem C15_comparators_as_modelled :
+  (forall a b, Cmp_meta_gen.by_pid_core a b = CmpPre.cmp3 a b) /\
+  (forall a b, Cmp_meta_gen.by_rank_core a b = CmpPre.cmp3 a b) /\
+  (forall a b, Cmp_meta_gen.by_phyid_core a b = CmpPre.cmp3 a b) /\
+  (forall a b, Cmp_meta_gen.by_tid_core a b = CmpPre.cmp3 a b) /\
+  (forall a b, Cmp_meta_gen.cmp_loom_rank_core a b = CmpPre.cmp3 a b) /\
+  (forall a b, (Cmp_meta_gen.cmp_loom_id_core a b <=? 0) = str_le a b).
+Proof.
+  exact (conj CmpMetaProofs.by_pid_core_cmp3 (conj CmpMetaProofs.by_rank_core_cmp3 (conj CmpMetaProofs.by_phyid_core_cmp3
+        (conj CmpMetaProofs.by_tid_core_cmp3 (conj CmpMetaProofs.cmp_loom_rank_core_cmp3 CmpMetaProofs.cmp_loom_id_is_model_order))))).
+Qed.
+Print Assumptions C15_comparators_as_modelled.
+
 (* looms by minimum rank (nB first), threads by TID, CPUs by phyid, vCPU last *)
 Example C15_ex_rows :
   exists sys, build ex1 = Ok sys /\ build ex2 = Ok sys /\
